@@ -66,3 +66,29 @@ func TestVerifProbeTypeUnicode(t *testing.T) {
 		}
 	}
 }
+
+// C01: (*core.Keys).ReadKey/nopanic:index — input ends (or fails) while a command waits for its argument key.
+func TestVerifFindingReadKeyOnEOF(t *testing.T) {
+	defer func() {
+		if r := recover(); r != nil {
+			t.Errorf("vi f<char> with the input ending after f panicked: %v", r)
+		}
+	}()
+	s := newSession(true)
+	s.keys("abxab", "\x1b", "0", "f") // f then end of input
+}
+
+// C05: (*core.Keys).ReadKey/post:uses-buffered-keys-first — OPEN finding (demonstration; fails on the current
+// tree): the same bytes cut into reads differently give different results, because commands that read an
+// argument key read the NEXT chunk from the terminal and ignore keys already buffered.
+func TestVerifFindingReadKeyIgnoresBufferedKeys(t *testing.T) {
+	run := func(chunks ...string) string {
+		s := newSession(true)
+		s.keys(append([]string{"abxab", "\x1b", "0"}, chunks...)...)
+		return s.buffer()
+	}
+	split, joined := run("d", "f", "x"), run("dfx")
+	if split != joined {
+		t.Errorf("\"dfx\" typed as three reads gives %q, pasted as one read gives %q", split, joined)
+	}
+}
